@@ -1,4 +1,5 @@
 import DDV.Driver.Ops
+import DDV.Driver.Proto
 
 partial def loop (h : IO.FS.Stream) (out : IO.FS.Stream) (f : String → String) : IO Unit := do
   let line ← h.getLine
@@ -11,4 +12,5 @@ def main (args : List String) : IO UInt32 := do
   let stdout ← IO.getStdout
   match args with
   | ["ops"] => loop stdin stdout DDV.Driver.Ops.step; return 0
-  | _ => IO.eprintln "usage: ddv-driver <ops>"; return 2
+  | ["proto"] => loop stdin stdout DDV.Driver.ProtoDrv.step; return 0
+  | _ => IO.eprintln "usage: ddv-driver <ops|proto>"; return 2
